@@ -427,6 +427,8 @@ func vfC13eval(c *vfC13Case, st *vfC13Stats) error {
 		}
 		wantHist[a] = h
 	}
+	fm := fullReader.Meta()
+	wantMeta, wantVersion := fm.Bytes(), fullReader.Version()
 	fullReader.Close()
 	for _, fname := range []string{"linked-log", "manifest", string(indexes.Kind_PubkeyToOffsetAndSize) + ".index"} {
 		raw, err := os.ReadFile(filepath.Join(env.GsfaDir, fname))
@@ -462,6 +464,14 @@ func vfC13eval(c *vfC13Case, st *vfC13Stats) error {
 				vfCloseLeaked(tdir)
 				continue
 			}
+			// opening succeeded: what the reader reports about the index (version, epoch / root / network metadata)
+			// must be what the complete directory reports
+			rm := r.Meta()
+			if gm, gv := rm.Bytes(), r.Version(); !bytes.Equal(gm, wantMeta) || gv != wantVersion {
+				r.Close()
+				return fmt.Errorf("gsfa %s cut to %d of %d bytes: the directory opens and reports version %d / %d bytes of metadata, the complete one version %d / %d bytes", fname, cut, len(raw), gv, len(gm), wantVersion, len(wantMeta))
+			}
+			st.add("gsfa-"+fname+"/open-same-metadata", 1)
 			for _, a := range addrs {
 				st.add("lookups", 1)
 				st.add("nontrivial", 1)
@@ -640,6 +650,17 @@ func TestVfC13(t *testing.T) {
 	run := vfh.Begin("C13", "truncation")
 	defer run.End(t)
 	run.Require("kind:cid-to-offset-and-size", "kind:slot-to-cid", "kind:sig-to-cid", "kind:pubkey-to-offset-and-size", "kind:sig-exists", "kind:sig-exists-legacy", "kind:slot-to-blocktime", "kind:gsfa-linked-log", "kind:gsfa-manifest", "kind:epoch-car", "region:header", "region:entries")
+	for _, p := range vfh.ReplayFiles("C13", "truncation") {
+		var c vfC13Case
+		if err := vfh.LoadCaseFile(p, &c); err != nil {
+			t.Fatalf("regress %s: %v", p, err)
+		}
+		run.SetLast(&c)
+		if err, _ := vfh.Catch(func() error { return vfC13eval(&c, &vfC13Stats{m: map[string]int{}}) }); err != nil {
+			t.Fatalf("regression case %s: C13 violated: %v", filepath.Base(p), err)
+		}
+		run.Class("regress-replayed")
+	}
 	opts := cargen.DefaultOpts()
 	opts.MaxBlocks = 6
 	opts.BigFrames = false
